@@ -41,6 +41,8 @@ class Result:
         d["rejected"] += agg["rejected"]
         d["excluded_nonterminating"] += agg["excluded"]
         d["grammar_load_errors"] += agg["build_errors"]
+        if agg.get("slow_inputs"):
+            self.extra["inputs_without_verdict_too_slow"] = self.extra.get("inputs_without_verdict_too_slow", 0) + agg["slow_inputs"]
         if "wf" in agg:
             wf = self.extra.setdefault("grammars_with_termination_certificate", {"certified": 0, "not_certified": 0})
             for kk in wf:
@@ -216,6 +218,7 @@ def c13(tier, seed):
 
 def c16(tier, seed):
     oc = [c for c in gen.opt_cases(seed + 9, _sizes(tier, 500, 6000)) if "SOI" not in c["grammar"]]
+    oc += gen.skip_trivia_cases()
     for c in oc:
         c["starts"] = "all"
     r = parse_family("C16", tier, seed, [
